@@ -107,6 +107,15 @@ pub fn exec(toks: &[&str]) -> String {
             }
             None => "bad-op".into(),
         },
+        ["ip-fmt", fam, a] => match ip_chain(a) {
+            // the text form (`Display`) of the canonical set
+            Some(c) => format!("{} {}", show_ip(&c), hex(if *fam == "4" { c.as_v4().to_string() } else { c.as_v6().to_string() }.as_bytes())),
+            None => "bad-op".into(),
+        },
+        ["as-fmt", a] => match as_chain(a) {
+            Some(c) => format!("{} {}", show_as(&c), hex(c.to_string().as_bytes())),
+            None => "bad-op".into(),
+        },
         ["ip-der", fam, hx] => {
             // IpBlocks::take_from_with_family on a SEQUENCE OF IPAddressOrRange
             let Some(b) = unhex(hx) else { return "bad-op".into() };
@@ -315,6 +324,31 @@ pub fn generate(ctx: &mut Ctx) {
             _ => {}
         }
         ctx.case(&format!("as-der {}", hex(&d)));
+    }
+    // text forms
+    for a in &sets_ip { ctx.case(&format!("ip-fmt 6 {}", show_blocks(a))); }
+    for a in &sets_as { ctx.case(&format!("as-fmt {}", show_blocks(a))); }
+    for _ in 0..(if thorough { 20_000 } else { 2_000 }) {
+        // IPv4 sets live in the upper 32 bits; IPv6 addresses with zero runs of every shape, mapped and compatible forms
+        let v4 = rng.bool();
+        let k = rng.range(1, 4);
+        let mut blocks: Vec<(u128, u128)> = Vec::new();
+        for _ in 0..k {
+            if v4 {
+                let a = (rng.next() as u32) & !((1u32 << rng.below(32)) - 1);
+                let b = match rng.below(3) { 0 => a, 1 => a | ((1u32 << rng.below(32)) - 1), _ => a.saturating_add(rng.below(70000) as u32) };
+                blocks.push(((a as u128) << 96, ((b.max(a) as u128) << 96) | ((1u128 << 96) - 1)));
+            } else {
+                let mut g = [0u16; 8];
+                for x in g.iter_mut() { *x = match rng.below(4) { 0 | 1 => 0, 2 => rng.below(16) as u16, _ => rng.next() as u16 }; }
+                if rng.chance(1, 12) { g = [0, 0, 0, 0, 0, 0xffff, rng.next() as u16, rng.next() as u16]; }
+                if rng.chance(1, 12) { g = [0, 0, 0, 0, 0, 0, rng.next() as u16, rng.next() as u16]; }
+                let a = g.iter().fold(0u128, |acc, x| (acc << 16) | *x as u128);
+                let b = match rng.below(3) { 0 => a, 1 => a | ((1u128 << rng.below(128)) - 1), _ => a.saturating_add(rng.next() as u128) };
+                blocks.push((a, b.max(a)));
+            }
+        }
+        ctx.case(&format!("ip-fmt {} {}", if v4 { 4 } else { 6 }, show_blocks(&blocks)));
     }
     // RFC 3779 IP blocks in DER
     for a in &sets_ip { ctx.case(&format!("ip-enc {}", show_blocks(a))); }
